@@ -26,23 +26,8 @@ theorem recv_writes_only_after_verification (s : Core) (p : Packet) (π : Proof)
 /-- Message level: a successful `MsgRecvPacket` implies the same. -/
 theorem recv_accepted_committed (s : State) (p : Packet) (π : Proof) (h : Nat) (t : String)
     (hok : (deliver H Hc s (.recvPacket p π h t)).2 = .ok) :
-    RecvOk H s.core p π h := by
-  unfold deliver at hok
-  cases hv : validateBasic (.recvPacket p π h t) with
-  | err e => simp [hv] at hok
-  | ok =>
-    simp only [hv] at hok
-    cases hh : handle H Hc s (.recvPacket p π h t) with
-    | mk s' r =>
-      cases r with
-      | err e => simp [hh] at hok
-      | ok =>
-        simp only [handle] at hh
-        unfold msgRecvPacket at hh
-        rcases recvPacket_cases H s.core p π h with ⟨hrok, _⟩ | ⟨_, e, hcls, he⟩
-        · exact hrok
-        · rw [he] at hh
-          rcases hcls with rfl | rfl | rfl <;> simp at hh
+    RecvOk H s.core p π h :=
+  deliver_recv_ok H Hc s p π h t hok
 
 /-- A rejected receive changes nothing on the chain (and no other chain is touched at all). -/
 theorem recv_rejected_unchanged (w : World) (c : Chain) (p : Packet) (π : Proof) (h : Nat) (t : String)
